@@ -123,3 +123,9 @@ Theorem C04_waiting_has_decreasing_completion : forall s, reach s -> want s = tr
             (exists t, is_cur s t = true /\ (e = ECbStart t None \/ e = ECbFinish t 1)).
 Proof. exact waiting_has_decreasing_completion. Qed.
 Print Assumptions C04_waiting_has_decreasing_completion.
+
+(* the same variant in the sync-retrieval model: the callback the polling caller waits for decreases it *)
+Theorem C04_sync_callback_decreases_variant : forall s t b, sreach s -> 1 <= b -> t < length (trk (base s)) ->
+  In t (inflight (base s)) -> mu (base (fst (sstep s (SCb t b)))) < mu (base s).
+Proof. exact sync_mu_callback_decreases. Qed.
+Print Assumptions C04_sync_callback_decreases_variant.
